@@ -15,11 +15,17 @@ let () =
         incr n;
         let case = String.sub line 0 i in
         let obs = String.sub line (i + 1) (String.length line - i - 1) in
+        (* optional third field "~peak~largest": allocation figures of the real code for this case *)
+        let obs, alloc = (match String.rindex_opt obs '\t' with
+            | Some j when j + 1 < String.length obs && obs.[j + 1] = '~' ->
+              String.sub obs 0 j, (try Scanf.sscanf (String.sub obs (j + 1) (String.length obs - j - 1)) "~%d~%d" (fun a b -> Some (a, b)) with _ -> None)
+            | _ -> obs, None) in
         let toks = List.filter (fun s -> s <> "") (String.split_on_char ' ' case) in
         let comp, rest = (match toks with c :: r -> c, r | [] -> "", []) in
         let model_obs, orc =
           (try
             match comp with
+            | "pair" -> obs, J_pair.oracle rest obs
             | "time" -> J_time.run rest, J_time.oracle rest obs
             | "amf0" -> J_amf0.run rest obs, J_amf0.oracle rest obs
             | "chunk" -> J_chunk.run rest obs, J_chunk.oracle rest obs
@@ -34,6 +40,18 @@ let () =
         let contains sub str =
           let n = String.length sub and m = String.length str in
           let rec go i = i + n <= m && (String.sub str i n = sub || go (i + 1)) in go 0 in
+        (* C03 memory clause: allocation bounded by a small multiple of the bytes the case carries plus one 16 MiB message
+           (application-supplied payload specs rN.S count with their length N) *)
+        let supplied =
+          List.fold_left (fun acc tok ->
+            match String.index_opt tok 'r' with
+            | Some k when k + 1 < String.length tok ->
+              (try Scanf.sscanf (String.sub tok k (String.length tok - k)) "r%d.%d" (fun n _ -> acc + n) with _ -> acc)
+            | _ -> acc) 0 toks in
+        let allowance = 16 * String.length case + 16 * supplied + 20 * 1048576 in
+        let orc = orc @ (match alloc with
+            | Some (peak, largest) when comp <> "amf0" || true -> if peak <= allowance && largest <= allowance then [] else ["C03.alloc_bounded", false]
+            | _ -> []) in
         let orc = orc @ (if contains "PANIC" obs then ["C03.never_panics", false] else [])
                       @ (if contains "HANG" obs then ["C03.never_hangs", false; "C19.never_hangs", false] else []) in
         if model_obs <> obs then begin
